@@ -123,7 +123,8 @@ PROPS["C08"] = {
                   "variable-time compare position and the traces of the two secrets must be identical; exhaustive guard-page "
                   "placement for the assembly table lookups; callgrind instruction counts of the assembly leaves across generated secrets"),
     "level_text": ("Generated-input search over pairs of secrets (adversarial pairs: 0 vs dense, radix-16 digits all -8 vs all 7, "
-                   "single-bit and top/low-byte differences, uniform) for every operation that is documented constant time, on an "
+                   "single-bit and top/low-byte differences, uniform; structured pairs for secret keys: scalars at the edge of the canonical range, "
+                   "two keys that agree in the scalar only / the nonce only / entirely / nowhere) for every operation that is documented constant time, on an "
                    "instrumented copy of the current tree: equal traces are required, the first diverging probe (file:line) is "
                    "reported. Decides source-level control flow and memory indices of Go code in all three Go backends; the assembly "
                    "lookups are decided by an exhaustive (routine, split, mirror, digit) guard-page enumeration of their memory access set, "
